@@ -113,12 +113,12 @@ package paths
 // Mount sources, secret/config files, bind devices: Unix-absolute, Windows-absolute and host-absolute values are left as written.
 //@ func (*relativePathsResolver).maybeUnixPath
 //@   nopanic[C01,C12]
-//@   requires isStr(a)
-//@   ensures[C01,C12] err == nil && isStr(result)
-//@   ensures[C12] !hasprefix(asStr(a), "~") && ext_path_IsAbs_0(asStr(a)) ==> result == a
-//@   ensures[C12] !hasprefix(asStr(a), "~") && winDriveAbs(asStr(a)) ==> result == a
-//@   ensures[C12] !hasprefix(asStr(a), "~") && uncAbs(asStr(a)) ==> result == a
-//@   ensures[C12] !hasprefix(asStr(a), "~") && isAbs(asStr(a)) ==> result == a
+//@   ensures[C01,C12] !isStr(a) ==> err == nil && result == a      // non-path values are never rewritten
+//@   ensures[C01,C12] isStr(a) ==> err == nil && isStr(result)
+//@   ensures[C12] isStr(a) && !hasprefix(asStr(a), "~") && ext_path_IsAbs_0(asStr(a)) ==> result == a
+//@   ensures[C12] isStr(a) && !hasprefix(asStr(a), "~") && winDriveAbs(asStr(a)) ==> result == a
+//@   ensures[C12] isStr(a) && !hasprefix(asStr(a), "~") && uncAbs(asStr(a)) ==> result == a
+//@   ensures[C12] isStr(a) && !hasprefix(asStr(a), "~") && isAbs(asStr(a)) ==> result == a
 //@   ensures[C01] err == nil ==> wf(result)
 
 // Build contexts: URL-like (any scheme://) and remote (git, http(s), ssh) values are left as written.
@@ -129,7 +129,8 @@ package paths
 //@   ensures[C12] isStr(value) && remotePrefix(asStr(value)) ==> result == value
 //@? ensures[C12] isStr(value) && !hasprefix(asStr(value), "~") && isAbs(asStr(value)) ==> result == value   // engine: ext_ symbol unknown in callers
 //@   ensures[C12] isStr(value) && asStr(value) == "" ==> asStr(result) == ""
-//@   ensures[C01] isStr(value) && err == nil ==> wf(result)
+//@   ensures[C01] err == nil ==> wf(result)
+//@   ensures[C01,C12] !isStr(value) ==> err == nil && result == value      // non-path values are never rewritten
 
 //@ func (*relativePathsResolver).absExtendsPath
 //@   nopanic[C01,C12]
@@ -137,7 +138,8 @@ package paths
 //@   ensures[C12] isStr(value) ==> err == nil && isStr(result)
 //@? ensures[C12] isStr(value) && !hasprefix(asStr(value), "~") && isAbs(asStr(value)) ==> result == value   // engine: ext_ symbol unknown in callers
 //@? ensures[C12] isStr(value) && accepted(r.remotes, asStr(value)) ==> result == value   // engine: result of a call through a function value is not nameable ("loader-recognised remote references are left as written")
-//@   ensures[C01] isStr(value) && err == nil ==> wf(result)
+//@   ensures[C01] err == nil ==> wf(result)
+//@   ensures[C01,C12] !isStr(value) ==> err == nil && result == value      // non-path values are never rewritten
 
 //@ spec isBind(m map[string]any) bool = has(m, "type") && m["type"] == "bind"
 
@@ -150,7 +152,8 @@ package paths
 //@   ensures[C01,C12] isMap(a) && old(isBind(asMap(a))) && !old(has(asMap(a), "source")) ==> err != nil
 //@   ensures[C12] isMap(a) && err == nil ==> result == a
 //@   ensures[C12] isMap(a) ==> forall k string :: k != "source" ==> (has(asMap(a), k) <==> old(has(asMap(a), k))) && asMap(a)[k] == old(asMap(a)[k])
-//@   ensures[C12] isMap(a) && old(isBind(asMap(a))) && err == nil ==> isStr(asMap(a)["source"])
+//@   ensures[C12] isMap(a) && old(isBind(asMap(a))) && err == nil && old(isStr(asMap(a)["source"])) ==> isStr(asMap(a)["source"])
+//@   ensures[C12] isMap(a) && old(isBind(asMap(a))) && err == nil && !old(isStr(asMap(a)["source"])) ==> asMap(a)["source"] == old(asMap(a)["source"])
 //@   ensures[C12] isMap(a) && old(isBind(asMap(a))) && err == nil && old(isStr(asMap(a)["source"])) && !hasprefix(old(asStr(asMap(a)["source"])), "~") && (winDriveAbs(old(asStr(asMap(a)["source"]))) || uncAbs(old(asStr(asMap(a)["source"])))) ==> asMap(a)["source"] == old(asMap(a)["source"])
 //@   ensures[C01] err == nil ==> wf(result)
 
@@ -160,6 +163,7 @@ package paths
 // (nfs/tmpfs/cifs devices, other drivers) and every other volume attribute is returned identical.
 //@ func (*relativePathsResolver).volumeDriverOpts
 //@   nopanic[C01,C12]
+//@   ensures[C01,C12] a != nil && !isMap(a) ==> err == nil && result == a      // non-mapping values are never rewritten
 //@   ensures[C12] a == nil ==> err == nil && result == nil
 //@   ensures[C12] isMap(a) && err == nil ==> result == a
 //@   ensures[C12] isMap(a) ==> forall k string :: k != "device" ==> (has(asMap(a), k) <==> old(has(asMap(a), k))) && asMap(a)[k] == old(asMap(a)[k])
@@ -167,9 +171,9 @@ package paths
 //@   ensures[C12] isMap(a) && !old(isLocalBind(asMap(a))) ==> err == nil
 //@   ensures[C12] isMap(a) && !old(isLocalBind(asMap(a))) && has(asMap(a), "driver_opts") && isMap(asMap(a)["driver_opts"]) ==> forall k string :: (has(asMap(asMap(a)["driver_opts"]), k) <==> old(has(asMap(asMap(a)["driver_opts"]), k))) && asMap(asMap(a)["driver_opts"])[k] == old(asMap(asMap(a)["driver_opts"])[k])
 //@   ensures[C12] isMap(a) && has(asMap(a), "driver_opts") && isMap(asMap(a)["driver_opts"]) ==> forall k string :: k != "device" ==> (has(asMap(asMap(a)["driver_opts"]), k) <==> old(has(asMap(asMap(a)["driver_opts"]), k))) && asMap(asMap(a)["driver_opts"])[k] == old(asMap(asMap(a)["driver_opts"])[k])
-//@   ensures[C12] isMap(a) && old(isLocalBind(asMap(a))) && err == nil ==> isStr(asMap(asMap(a)["driver_opts"])["device"])
+//@   ensures[C12] isMap(a) && old(isLocalBind(asMap(a))) && err == nil && old(isStr(asMap(asMap(a)["driver_opts"])["device"])) ==> isStr(asMap(asMap(a)["driver_opts"])["device"])
 //@   ensures[C12] isMap(a) && old(isLocalBind(asMap(a))) && old(isStr(asMap(asMap(a)["driver_opts"])["device"])) && !hasprefix(old(asStr(asMap(asMap(a)["driver_opts"])["device"])), "~") && (winDriveAbs(old(asStr(asMap(asMap(a)["driver_opts"])["device"]))) || uncAbs(old(asStr(asMap(asMap(a)["driver_opts"])["device"])))) ==> asMap(asMap(a)["driver_opts"])["device"] == old(asMap(asMap(a)["driver_opts"])["device"])
-//@   ensures[C01] err == nil && (a == nil || isMap(a)) ==> wf(result)
+//@   ensures[C01] err == nil ==> wf(result)
 
 // Watch paths: resolved like env_file/label_file, then symlinks are rewritten (file-system state: not decided).
 //@ func (*relativePathsResolver).absSymbolicLink
@@ -182,6 +186,8 @@ package paths
 // K5: the resolver table holds exactly the rows the property lists (plus the extends/include bookkeeping rows).
 //@ spec resolverKey(k string) bool = k == "services.*.build.context" || k == "services.*.build.additional_contexts.*" || k == "services.*.env_file.*.path" || k == "services.*.label_file.*" || k == "services.*.extends.file" || k == "services.*.develop.watch.*.path" || k == "services.*.volumes.*" || k == "configs.*.file" || k == "secrets.*.file" || k == "include.path" || k == "include.project_directory" || k == "include.env_file" || k == "volumes.*"
 
+//@ spec isResolverFn(f int) bool = f == fn("(*relativePathsResolver).absContextPath") || f == fn("(*relativePathsResolver).absPath") || f == fn("(*relativePathsResolver).absExtendsPath") || f == fn("(*relativePathsResolver).absSymbolicLink") || f == fn("(*relativePathsResolver).absVolumeMount") || f == fn("(*relativePathsResolver).maybeUnixPath") || f == fn("(*relativePathsResolver).volumeDriverOpts")
+
 //@ func (*relativePathsResolver).resolveRelativePaths
 //@   nopanic[C01,C12]
 //@   assigns below(value)
@@ -189,14 +195,17 @@ package paths
 //@   requires[C01] forall k string :: has(r.resolvers, k) ==> r.resolvers[k] != nil
 // K5 rows (row -> resolver). Inactive: a bound-method closure (r.maybeUnixPath, ...) stored in a struct-field map has no identity in the
 // SMT model (fresh non-zero id), so neither the rows nor the unique-match dispatch of `resolver(value)` can be stated or used.
-//@? requires[C12] r.resolvers["services.*.build.context"] == fn("(*relativePathsResolver).absContextPath") && r.resolvers["services.*.build.additional_contexts.*"] == fn("(*relativePathsResolver).absContextPath")
-//@? requires[C12] r.resolvers["services.*.env_file.*.path"] == fn("(*relativePathsResolver).absPath") && r.resolvers["services.*.label_file.*"] == fn("(*relativePathsResolver).absPath")
-//@? requires[C12] r.resolvers["services.*.develop.watch.*.path"] == fn("(*relativePathsResolver).absSymbolicLink")
-//@? requires[C12] r.resolvers["services.*.volumes.*"] == fn("(*relativePathsResolver).absVolumeMount") && r.resolvers["volumes.*"] == fn("(*relativePathsResolver).volumeDriverOpts")
-//@? requires[C12] r.resolvers["configs.*.file"] == fn("(*relativePathsResolver).maybeUnixPath") && r.resolvers["secrets.*.file"] == fn("(*relativePathsResolver).maybeUnixPath")
-//@? requires[C12] r.resolvers["services.*.extends.file"] == fn("(*relativePathsResolver).absExtendsPath")
+//@  requires forall i int :: 0 <= i && i < len(r.remotes) ==> r.remotes[i] != nil
+//@  requires[C12] forall k string :: has(r.resolvers, k) ==> r.resolvers[k] < 0 && closurerecv(r.resolvers[k]) == r && isResolverFn(closurefn(r.resolvers[k]))
+//@  requires[C12] r.resolvers["services.*.build.context"] == bound("(*relativePathsResolver).absContextPath", r) && r.resolvers["services.*.build.additional_contexts.*"] == bound("(*relativePathsResolver).absContextPath", r)
+//@  requires[C12] r.resolvers["services.*.env_file.*.path"] == bound("(*relativePathsResolver).absPath", r) && r.resolvers["services.*.label_file.*"] == bound("(*relativePathsResolver).absPath", r)
+//@  requires[C12] r.resolvers["services.*.develop.watch.*.path"] == bound("(*relativePathsResolver).absSymbolicLink", r)
+//@  requires[C12] r.resolvers["services.*.volumes.*"] == bound("(*relativePathsResolver).absVolumeMount", r) && r.resolvers["volumes.*"] == bound("(*relativePathsResolver).volumeDriverOpts", r)
+//@  requires[C12] r.resolvers["configs.*.file"] == bound("(*relativePathsResolver).maybeUnixPath", r) && r.resolvers["secrets.*.file"] == bound("(*relativePathsResolver).maybeUnixPath", r)
+//@  requires[C12] r.resolvers["services.*.extends.file"] == bound("(*relativePathsResolver).absExtendsPath", r)
 //@   ensures[C01] err == nil ==> wf(result)
 //@   ensures[C01,C12] forall k string :: (has(r.resolvers, k) <==> old(has(r.resolvers, k))) && r.resolvers[k] == old(r.resolvers[k])
+//@   ensures[C01] r.remotes == old(r.remotes) && forall i int :: 0 <= i && i < len(r.remotes) ==> r.remotes[i] == old(r.remotes[i])
 //@   ensures[C12] (forall k string :: resolverKey(k) ==> !pathmatch(p, k)) && !isMap(value) && !isList(value) ==> err == nil && result == value
 //@   ensures[C12] (forall k string :: resolverKey(k) ==> !pathmatch(p, k)) && err == nil ==> result == value
 //@? ensures[C12] (forall k string :: resolverKey(k) ==> !pathmatch(p, k)) && isMap(value) && err == nil ==> forall k string :: has(asMap(value), k) <==> old(has(asMap(value), k))   // engine: key set of the parent map not retained across the recursive call
@@ -205,8 +214,12 @@ package paths
 //@   loop 2
 //@?   invariant[C12] forall k string :: has(v, k) <==> old(has(v, k))
 //@     invariant[C01,C12] forall k string :: (has(r.resolvers, k) <==> old(has(r.resolvers, k))) && r.resolvers[k] == old(r.resolvers[k])
+//@     invariant[C12] forall k string :: has(r.resolvers, k) ==> r.resolvers[k] < 0 && closurerecv(r.resolvers[k]) == r && isResolverFn(closurefn(r.resolvers[k]))
+//@     invariant[C01] r.remotes == old(r.remotes) && forall i int :: 0 <= i && i < len(r.remotes) ==> r.remotes[i] == old(r.remotes[i])
 //@   loop 3
 //@     invariant[C01,C12] forall k string :: (has(r.resolvers, k) <==> old(has(r.resolvers, k))) && r.resolvers[k] == old(r.resolvers[k])
+//@     invariant[C12] forall k string :: has(r.resolvers, k) ==> r.resolvers[k] < 0 && closurerecv(r.resolvers[k]) == r && isResolverFn(closurefn(r.resolvers[k]))
+//@     invariant[C01] r.remotes == old(r.remotes) && forall i int :: 0 <= i && i < len(r.remotes) ==> r.remotes[i] == old(r.remotes[i])
 //@     invariant[C01] -1 <= rangeindex && rangeindex < len(v)
 //@     decreases[C01] len(v) - rangeindex
 
